@@ -182,12 +182,12 @@ var plans = map[string]*plan{
 	"C02": {
 		Level:          "exploration",
 		Rule:           "broker role: scripts over packet ids mixing QoS1 PUBLISH, QoS2 PUBLISH, DUP QoS2 PUBLISH carrying different bytes, PUBREL, repeated PUBREL and filler of more than two ring sizes; exhaustive up to length 5 over a 6-token alphabet with 2 ids (thorough 7), sampled longer scripts over 3..4 ids; after every packet, at synctest quiescence, the publisher's wire must show exactly the one matching ack and the QoS2 subscriber's wire exactly the due hand-overs: none before PUBREL, one at PUBREL (when first PUBRELs come in exchange order as MQTT-4.6.0 demands of a sender; otherwise no later than the PUBREL of all older exchanges), never again, always the first PUBLISH's content. distinct = script shapes.",
-		Quick:          []batchSpec{{Test: "TestC02Broker", N: 8, Timeout: 15 * m}},
-		Thorough:       []batchSpec{{Test: "TestC02Broker", N: 16, Timeout: 60 * m}},
+		Quick:          []batchSpec{{Test: "TestC02Broker", N: 8, Timeout: 15 * m}, {Test: "TestC02Client", N: 4, Timeout: 15 * m}},
+		Thorough:       []batchSpec{{Test: "TestC02Broker", N: 16, Timeout: 60 * m}, {Test: "TestC02Client", N: 8, Timeout: 60 * m}},
 		EvalStats:      []string{"c02.scripts"},
-		Floors:         map[string]int64{"c02.scripts": 8000, "c02.steps": 50000, "classes": 3500},
+		Floors:         map[string]int64{"c02.scripts": 8000, "c02.steps": 50000, "c02.client_scripts": 380, "classes": 3500},
 		FloorsThorough: map[string]int64{"c02.scripts": 300000, "classes": 100000},
-		Assumptions:    []string{"quiescence by synctest.Wait()", "the client role of the property is checked by the scripted-peer workload (TestC02Client) where built"},
+		Assumptions:    []string{"quiescence by synctest.Wait()", "client role: library Client subscribed to c02/# against a scripted TCP peer, hand-over = OnPublishFunc invocations, quiescence = PINGREQ/PINGRESP barrier"},
 	},
 	"C12": {
 		Level: "exploration",
@@ -226,11 +226,11 @@ var plans = map[string]*plan{
 	"C17": {
 		Level: "exploration",
 		Rule: "concurrent real-time workload on a real broker over net.Pipe with 16 KiB rings and broker-side read fragmentation: 2..12 raw publishers (own + shared topics, QoS 0/1/2, payloads 17/100/4096/8152 bytes so packets straddle the ring end) to 2..6 stable subscribers (fast, slow, bursty readers; granted QoS 0/1/2), concurrent Server.Publish/Subscribe/Unsubscribe goroutines, retained updates, and churning subscribers being torn down while deliveries are addressed to them; GOMAXPROCS 2/4/16; also under the race detector. " +
-			"Oracle: every byte every subscriber receives is consumed by the strict reference parser with no framing error, every PUBLISH payload passes its CRC, and per (subscriber, publisher, topic, published QoS) the embedded sequence numbers are strictly increasing. distinct = run configurations.",
-		Quick:          []batchSpec{{Test: "TestC17", N: 10, Timeout: 15 * m}, {Test: "TestC17", N: 6, Race: true, Timeout: 20 * m}},
-		Thorough:       []batchSpec{{Test: "TestC17", N: 16, Timeout: 60 * m}, {Test: "TestC17", N: 16, Race: true, Timeout: 60 * m}},
+			"Oracle: every byte every subscriber receives is consumed by the strict reference parser with no framing error, every PUBLISH payload passes its CRC, and per (subscriber, publisher, topic, published QoS) the embedded sequence numbers are strictly increasing. Client role: a library Client queues 1..3 PUBLISH packets of 9 KiB..200 KiB and calls Disconnect at once; the raw bytes a TCP peer receives must be a prefix of those whole packets, with the DISCONNECT on a packet boundary. distinct = run configurations.",
+		Quick:          []batchSpec{{Test: "TestC17", N: 10, Timeout: 15 * m}, {Test: "TestC17", N: 6, Race: true, Timeout: 20 * m}, {Test: "TestC17Client", N: 2, Timeout: 15 * m}},
+		Thorough:       []batchSpec{{Test: "TestC17", N: 16, Timeout: 60 * m}, {Test: "TestC17", N: 16, Race: true, Timeout: 60 * m}, {Test: "TestC17Client", N: 8, Timeout: 30 * m}},
 		EvalStats:      []string{"c17.runs"},
-		Floors:         map[string]int64{"c17.runs": 50, "c17.published": 20000, "c17.received": 100000, "c17.order_keys": 5000, "c17.churned_connections": 2000, "classes": 40},
+		Floors:         map[string]int64{"c17.runs": 50, "c17.published": 20000, "c17.received": 100000, "c17.order_keys": 5000, "c17.churned_connections": 2000, "c17.client_runs": 55, "classes": 40},
 		FloorsThorough: map[string]int64{"c17.runs": 700, "c17.published": 1000000, "classes": 200},
 		Post:           func(r *result, wd string) { parseRaceLogs(r, wd) },
 		Assumptions:    []string{"quiescence by protocol barriers (publisher acks, then PINGREQ/PINGRESP on every subscriber): exact because fan-out is synchronous and rings are FIFO", "race reports in this check's -race runs are reported under their C18 signature"},
